@@ -1,0 +1,42 @@
+//go:build verif
+
+// Contracts for the deductive verifier in /verif (comment-only; compiled only with -tags verif).
+package eval
+
+//@ import k8s "github.com/np-guard/netpol-analyzer/pkg/netpol/eval/internal/k8s"
+//@ import apisv1a "sigs.k8s.io/network-policy-api/apis/v1alpha1"
+//@ import corev1 "k8s.io/api/core/v1"
+//@ import netv1 "k8s.io/api/networking/v1"
+
+// ---------------------------------------------------------------------------------------------
+// Admin network policies: uniqueness, priority order (C02, C19, C15)
+// ---------------------------------------------------------------------------------------------
+
+// element-level relations used by the comparator passed to sort.Slice
+//@ fun anpValid(a *k8s.AdminNetworkPolicy) bool = 0 <= a.Spec.Priority && a.Spec.Priority <= 1000
+//@ fun anpConflict(a *k8s.AdminNetworkPolicy, b *k8s.AdminNetworkPolicy) bool = a.Spec.Priority == b.Spec.Priority || !anpValid(a) || !anpValid(b)
+//@ fun anpLess(a *k8s.AdminNetworkPolicy, b *k8s.AdminNetworkPolicy) bool = a.Spec.Priority < b.Spec.Priority
+
+// every stored ANP is a real object
+//@ pred anpsNonNil(pe *PolicyEngine) = forall k int :: {pe.sortedAdminNetpols[k]} (0 <= k && k < len(pe.sortedAdminNetpols)) ==>
+//@     (pe.sortedAdminNetpols[k] != nil && allocated(pe.sortedAdminNetpols[k]))
+// the query functions scan sortedAdminNetpols front to back: strictly ascending, valid priorities
+//@ pred sortedANPs(pe *PolicyEngine) = (forall x int, y int :: {pe.sortedAdminNetpols[x], pe.sortedAdminNetpols[y]}
+//@     (0 <= x && x < y && y < len(pe.sortedAdminNetpols)) ==> pe.sortedAdminNetpols[x].Spec.Priority < pe.sortedAdminNetpols[y].Spec.Priority)
+//@   && (forall k int :: {pe.sortedAdminNetpols[k]} (0 <= k && k < len(pe.sortedAdminNetpols)) ==> anpValid(pe.sortedAdminNetpols[k]))
+
+//@ func (*PolicyEngine).sortAdminNetpolsByPriority$1
+//@   sortspec slice: pe.sortedAdminNetpols; flag: err != nil; conflict: anpConflict; less: anpLess
+//@   requires pe != nil && anpsNonNil(pe)
+//@   modifies *error { r | r == addr(err) }
+
+//@ func (*PolicyEngine).sortAdminNetpolsByPriority
+//@   requires pe != nil && allocated(pe) && anpsNonNil(pe)
+//@   modifies pe.sortedAdminNetpols
+//@   ensures [C19,C02] len: len(pe.sortedAdminNetpols) == old(len(pe.sortedAdminNetpols)) && anpsNonNil(pe)
+//@   ensures [C19] rejects_equal: (exists x int, y int :: 0 <= x && x < y && y < old(len(pe.sortedAdminNetpols))
+//@         && old(pe.sortedAdminNetpols[x].Spec.Priority == pe.sortedAdminNetpols[y].Spec.Priority)) ==> res != nil
+//@   ensures [C19] rejects_range: (exists x int :: 0 <= x && x < old(len(pe.sortedAdminNetpols)) && !old(anpValid(pe.sortedAdminNetpols[x]))) ==> res != nil
+//@   ensures [C02,C19] sorted: res == nil ==> sortedANPs(pe)
+//@   ensures [C02] perm: forall k int :: {pe.sortedAdminNetpols[k]} (0 <= k && k < len(pe.sortedAdminNetpols)) ==>
+//@         (exists m int :: 0 <= m && m < old(len(pe.sortedAdminNetpols)) && pe.sortedAdminNetpols[k] == old(pe.sortedAdminNetpols[m]))
